@@ -190,7 +190,7 @@ impl C04Case {
 pub fn c04_run(case: &C04Case, base: &Base, path: &str, prefix: &[u8], policy: RwPolicy) -> (ExecResult, Vec<Judgement>, String) {
     write_base(path, base);
     let db = match real::guarded(|| base.cfg.open(path)) {
-        Ok(Ok(db)) => Arc::new(db),
+        Ok(Ok(db)) => db,
         other => {
             return (ExecResult { points: vec![], deadlock: None, diverged: Some(format!("cannot open base: {:?}", other.map(|r| r.map(|_| ())))), panics: vec![] }, vec![], String::new());
         }
